@@ -86,7 +86,7 @@ def propFileDef (T : FileType) (input out : List Msg) : String :=
   -- a file to which no file_id was added gives back the zero-valued one (tag 0): not one of the input messages
   let out' := if hasFileId then out else out.filter (fun m => !(m.tag == 0 && m.num == Generated.mesgNumFileId))
   if !hasFileId && out'.length + 1 != out.length then "fail:conservation" else
-  if !countEq (out'.map content) ((keepLast T input).map content) then "fail:conservation" else
+  if !countEq (out'.map content) ((keepLastDecl T input).map content) then "fail:conservation" else
   match out with
   | [] => "fail:prefix"
   | fid :: r =>
